@@ -98,6 +98,17 @@ def generate(rng, tier):
         more = rbytes_n(rng, rng.randint(1, 2 * bs))
         m1, m2 = c.op("apply wk ip %s" % hx(more)), c.op("apply s ip %s" % hx(more))
         c.expect("from_core(core) continues like the byte-level cipher", lambda r, m1=m1, m2=m2: rbytes(r[m1]) == rbytes(r[m2]))
+        if kind != "belt" and rng.random() < 0.6:
+            # get_core() of a wrapper sitting on a block boundary: its keystream blocks are what the wrapper writes next
+            c.op("new s2 %s new %s %s" % (kind, hx(key), hx(iv)))
+            pre = rng.randint(0, 2 * w) * bs
+            c.op("apply s2 ip %s" % hx(rbytes_n(rng, pre)))
+            c.op("core s2 k2")
+            k2 = rng.randint(1, w + 1)
+            g1 = c.op("ksblocks k2 %d" % k2)
+            g2 = c.op("apply s2 ip %s" % hx(bytes(k2 * bs)))
+            c.expect("get_core() of the byte-level cipher at a block boundary continues the same keystream",
+                     lambda r, g1=g1, g2=g2: rbytes(r[g1]) == rbytes(r[g2]))
         cases.append(c)
     # --- cts on whole blocks vs plain cbc / raw ecb ---
     for i in range(n * 2):
